@@ -2,7 +2,8 @@
 //!
 //! (1) scripted scenarios (correspondence + oracle): one store, several handles, the objects directory
 //!     changed by the REAL git between API calls (`git repack -d`, `git repack -ad`, `git prune-packed`,
-//!     new packs through `git pack-objects | git index-pack --stdin`). The scenario is exported as one
+//!     new packs through `git pack-objects | git index-pack --stdin`; with `use_multi_pack_index`: `git
+//!     multi-pack-index write`, `git repack -ad --write-midx`). The scenario is exported as one
 //!     op line (directory listings as the consolidation sees them, handle operations) and the Lean model
 //!     (`Model/C12.lean`, the control flow of `contains` / `try_find` run over the protocol transition
 //!     system) must predict every `contains` / `try_find` result and every `Store::metrics()`.
@@ -112,6 +113,49 @@ fn listing(pack_dir: &Path) -> Vec<PathBuf> {
     v.into_iter().map(|t| t.0).collect()
 }
 
+/// one element of what `collect_indices_and_mtime_sorted_by_size` yields with `use_multi_pack_index`
+enum Listed {
+    Idx(PathBuf),
+    /// version tag (length and mtime), and per pack: the name of its index file and the objects assigned to it
+    Midx(String, Vec<(String, Vec<gix_hash::ObjectId>)>),
+}
+
+/// the same listing with the multi-pack index: it comes first, the index files it names are left out, then
+/// everything is stably sorted by size, biggest first
+fn listing_with_midx(pack_dir: &Path) -> Vec<Listed> {
+    let Ok(rd) = std::fs::read_dir(pack_dir) else { return Vec::new() };
+    let entries: Vec<(PathBuf, std::fs::Metadata)> = rd
+        .filter_map(Result::ok)
+        .filter_map(|e| e.metadata().map(|md| (e.path(), md)).ok())
+        .filter(|(_, md)| md.file_type().is_file())
+        .collect();
+    let midx_path = pack_dir.join("multi-pack-index");
+    let midx = entries
+        .iter()
+        .find(|(p, _)| *p == midx_path)
+        .and_then(|(p, md)| gix_pack::multi_index::File::at(p).ok().map(|f| (f, md.len(), md.modified().ok())));
+    let mut out: Vec<(Listed, u64)> = Vec::new();
+    let mut covered: Vec<String> = Vec::new();
+    if let Some((f, len, mtime)) = &midx {
+        covered = f.index_names().iter().map(|n| n.to_string_lossy().to_string()).collect();
+        let mut packs: Vec<(String, Vec<gix_hash::ObjectId>)> = covered.iter().map(|n| (n.clone(), Vec::new())).collect();
+        for e in f.iter() {
+            packs[e.pack_index as usize].1.push(e.oid);
+        }
+        out.push((Listed::Midx(format!("{len}:{mtime:?}"), packs), *len));
+    }
+    for (p, md) in &entries {
+        if p.extension() == Some(std::ffi::OsStr::new("idx")) && p.with_extension("pack").is_file() {
+            let name = p.file_name().unwrap().to_string_lossy().to_string();
+            if !covered.contains(&name) {
+                out.push((Listed::Idx(p.clone()), md.len()));
+            }
+        }
+    }
+    out.sort_by(|l, r| l.1.cmp(&r.1).reverse());
+    out.into_iter().map(|t| t.0).collect()
+}
+
 fn idx_objects(dir: &Path, idx: &Path) -> Vec<gix_hash::ObjectId> {
     let data = std::fs::read(idx).unwrap_or_default();
     let out = git(dir, &["show-index"], Some(&data));
@@ -201,9 +245,10 @@ struct Scn<'a> {
     on_disk: BTreeSet<gix_hash::ObjectId>,
     rep: &'a mut Report,
     missing: Vec<gix_hash::ObjectId>,
-    /// the store uses the multi-pack index: oracle only (the scenario model has no multi-pack index)
+    /// the store uses the multi-pack index
     midx: bool,
-    midx_tags: BTreeMap<String, usize>,
+    /// number of elements of the last listing
+    elements: usize,
 }
 
 impl<'a> Scn<'a> {
@@ -215,7 +260,7 @@ impl<'a> Scn<'a> {
         let store = open_store(&repo.objects(), slots as u16, midx);
         Scn {
             midx,
-            midx_tags: BTreeMap::new(),
+            elements: 0,
             repo,
             store,
             slots,
@@ -243,33 +288,49 @@ impl<'a> Scn<'a> {
         let mut parts = Vec::new();
         let mut on_disk = BTreeSet::new();
         for p in &files {
-            let name = p.file_name().unwrap().to_string_lossy().to_string();
-            let n = self.filenum.len();
-            let f = *self.filenum.entry(name.clone()).or_insert(n);
-            let objs = match self.idx_cache.get(&name) {
-                Some(o) => o.clone(),
-                None => {
-                    let o = idx_objects(&self.repo.dir, p);
-                    self.idx_cache.insert(name.clone(), o.clone());
-                    o
-                }
-            };
+            let objs = self.objs_of(p);
             on_disk.extend(objs.iter().cloned());
-            let nums: Vec<String> = objs.into_iter().map(|o| self.num(o).to_string()).collect();
-            parts.push(format!("{f}:{}", nums.join(".")));
         }
-        let mut disk = format!("D{}", parts.join("+"));
+        let mut elements = 0;
         if self.midx {
-            // the multi-pack index keeps its name: what makes it another one for the store is its mtime
-            let tag = std::fs::metadata(self.repo.pack_dir().join("multi-pack-index"))
-                .ok()
-                .map(|m| format!("{}:{:?}", m.len(), m.modified().ok()));
-            if let Some(tag) = tag {
-                let n = self.midx_tags.len();
-                let v = *self.midx_tags.entry(tag).or_insert(n);
-                disk.push_str(&format!("+m{v}"));
+            for item in listing_with_midx(&self.repo.pack_dir()) {
+                elements += 1;
+                match item {
+                    Listed::Idx(p) => {
+                        let name = p.file_name().unwrap().to_string_lossy().to_string();
+                        let n = self.filenum.len();
+                        let f = *self.filenum.entry(name).or_insert(n);
+                        let objs = self.objs_of(&p);
+                        let nums: Vec<String> = objs.into_iter().map(|o| self.num(o).to_string()).collect();
+                        parts.push(format!("{f}:{}", nums.join(".")));
+                    }
+                    Listed::Midx(tag, packs) => {
+                        let n = self.filenum.len();
+                        let f = *self.filenum.entry(format!("multi-pack-index@{tag}")).or_insert(n);
+                        let mut ps = Vec::new();
+                        for (name, objs) in packs {
+                            let n = self.filenum.len();
+                            let pf = *self.filenum.entry(name).or_insert(n);
+                            let nums: Vec<String> = objs.into_iter().map(|o| self.num(o).to_string()).collect();
+                            ps.push(format!("{pf}={}", nums.join(".")));
+                        }
+                        parts.push(format!("M{f}:{}", ps.join("|")));
+                    }
+                }
+            }
+        } else {
+            for p in &files {
+                let name = p.file_name().unwrap().to_string_lossy().to_string();
+                let n = self.filenum.len();
+                let f = *self.filenum.entry(name).or_insert(n);
+                let objs = self.objs_of(p);
+                let nums: Vec<String> = objs.into_iter().map(|o| self.num(o).to_string()).collect();
+                parts.push(format!("{f}:{}", nums.join(".")));
+                elements += 1;
             }
         }
+        self.elements = elements;
+        let disk = format!("D{}", parts.join("+"));
         if disk != self.last_disk {
             self.steps.push(disk.clone());
             self.last_disk = disk;
@@ -332,13 +393,13 @@ impl<'a> Scn<'a> {
         self.handles.iter().enumerate().filter(|(_, h)| h.is_some()).map(|(i, _)| i).collect()
     }
     fn op_line(&self) -> String {
-        format!("{} {} {}", if self.midx { "scnm" } else { "scn" }, self.slots, self.steps.join(" "))
+        format!("scn {} {}", self.slots, self.steps.join(" "))
     }
     fn oracle(&mut self, what: &str, h: usize, id: gix_hash::ObjectId, obs: &str) {
         self.rep.oracle_checked();
         let present = self.on_disk.contains(&id);
-        // with a multi-pack index the scenarios are built to fit: the index and its rewritten copy
-        let enough_slots = self.midx || self.last_disk.matches(':').count() <= self.slots;
+        // a rewritten multi-pack index needs a free slot next to its old one
+        let enough_slots = self.elements + usize::from(self.midx) <= self.slots;
         let key = match obs {
             "panic" => Some("scripted: lookup panics"),
             "wrong" => Some("scripted: try_find returned another object's content"),
@@ -382,10 +443,6 @@ impl<'a> Scn<'a> {
         let line = self.op_line();
         let obs = if self.obs.is_empty() { "-".to_string() } else { self.obs.join(",") };
         self.rep.bucket(class);
-        if self.midx {
-            // oracle only
-            return;
-        }
         self.rep.case(&line, &obs, true);
     }
 }
@@ -602,7 +659,7 @@ fn corpus(rep: &mut Report, sc: &Scratch) {
         s.metrics();
         s.finish("corpus");
     }
-    // (g) multi-pack index (oracle only). Handles 0 and 2 find an object through the multi-pack index without
+    // (g) multi-pack index. Handles 0 and 2 find an object through the multi-pack index without
     // loading its pack. Then ONLY the multi-pack index is rewritten (`git multi-pack-index write` after a new
     // pack; no index file the store knows disappears): the store moves it to another slot and clears the old
     // one, which needs a new generation. Handle 0 comes back while the old slot is empty, handle 2 after
@@ -780,6 +837,101 @@ fn random_scenario(rep: &mut Report, sc: &Scratch, rng: &mut Rng, idx: u64) {
     }
     s.metrics();
     s.finish(if stable_family { "random-stable" } else { "random" });
+}
+
+/// random scenarios with a store that uses the multi-pack index; git writes, rewrites and drops it
+fn random_midx_scenario(rep: &mut Report, sc: &Scratch, rng: &mut Rng, idx: u64) {
+    let slots: usize = *rng.pick(&[2usize, 3, 3, 4, 4, 6, 8]);
+    let mut s = Scn::new_opts(rep, sc.join(format!("m{idx}")), slots, true);
+    let salt = rng.u64();
+    let _ = s.repo.commit(salt);
+    git_ok(&s.repo.dir, &["repack", "-adq"], None);
+    if rng.chance(2, 3) {
+        let _ = s.repo.commit(salt);
+        git_ok(&s.repo.dir, &["repack", "-dq"], None);
+    }
+    if rng.chance(3, 4) {
+        git_ok(&s.repo.dir, &["multi-pack-index", "write"], None);
+    }
+    s.sync_disk();
+    s.new_handle();
+    s.new_handle();
+    let nsteps = 8 + rng.usize(14);
+    for _ in 0..nsteps {
+        let live = s.live();
+        let r = rng.below(100);
+        // what the listing shows, plus room for a moved multi-pack index and a new pack
+        let room = s.elements + 2 <= slots;
+        if r < 10 {
+            s.repo.commit(salt);
+            s.sync_disk();
+            s.rep.bucket("git-commit");
+        } else if r < 20 {
+            if room {
+                git_ok(&s.repo.dir, &["repack", "-dq"], None);
+                s.rep.bucket("git-repack-d");
+                s.sync_disk();
+            }
+        } else if r < 34 {
+            std::thread::sleep(std::time::Duration::from_millis(15));
+            git_ok(&s.repo.dir, &["multi-pack-index", "write"], None);
+            s.rep.bucket("git-midx-write");
+            s.sync_disk();
+        } else if r < 44 {
+            std::thread::sleep(std::time::Duration::from_millis(15));
+            git_ok(&s.repo.dir, &["repack", "-adq", "--write-midx"], None);
+            s.rep.bucket("git-repack-ad-write-midx");
+            s.sync_disk();
+        } else if r < 49 {
+            git_ok(&s.repo.dir, &["repack", "-adq"], None);
+            s.rep.bucket("git-repack-ad");
+            s.sync_disk();
+        } else if r < 52 {
+            git_ok(&s.repo.dir, &["prune-packed", "-q"], None);
+            s.rep.bucket("git-prune-packed");
+            s.sync_disk();
+        } else if r < 56 {
+            if s.handles.len() < 4 {
+                s.new_handle();
+            }
+        } else if r < 58 {
+            if live.len() > 1 {
+                let h = *rng.pick(&live);
+                s.steps.push(format!("X{h}"));
+                s.handles[h] = None;
+            }
+        } else if r < 66 {
+            s.metrics();
+        } else if !live.is_empty() {
+            let h = *rng.pick(&live);
+            let id = if s.objnum.is_empty() || rng.chance(1, 8) {
+                if s.missing.is_empty() || rng.chance(1, 2) {
+                    let m = some_missing_id(rng);
+                    s.missing.push(m);
+                    m
+                } else {
+                    *rng.pick(&s.missing)
+                }
+            } else {
+                let mut by_num: Vec<(usize, gix_hash::ObjectId)> = s.objnum.iter().map(|(k, v)| (*v, *k)).collect();
+                by_num.sort();
+                let n = by_num.len();
+                let i = match rng.below(4) {
+                    0 => n - 1 - rng.usize(n.min(3)),
+                    1 => rng.usize(n.min(3)),
+                    _ => rng.usize(n),
+                };
+                by_num[i].1
+            };
+            if rng.chance(1, 2) {
+                s.contains(h, id);
+            } else {
+                s.find(h, id);
+            }
+        }
+    }
+    s.metrics();
+    s.finish("random-midx");
 }
 
 // ---------------------------------------------------------------------------------------------
@@ -1391,6 +1543,15 @@ fn main() {
         rep.finish();
         return;
     }
+    if let Some(r) = std::env::var_os("C12_MIDX_ONLY") {
+        let runs: u64 = r.to_string_lossy().parse().unwrap_or(10);
+        let mut rng = Rng::new(args.seed ^ 0x6d69_6478);
+        for i in 0..runs {
+            random_midx_scenario(&mut rep, &sc, &mut rng, i);
+        }
+        rep.finish();
+        return;
+    }
     forced_claim_window(&mut rep, &sc);
     forced_recheck_window(&mut rep, &sc);
     forced_publish_window(&mut rep, &sc);
@@ -1414,6 +1575,10 @@ fn main() {
     let n = args.budget(12, 70);
     for i in 0..n {
         random_scenario(&mut rep, &sc, &mut rng, i);
+    }
+    let mut rng_m = Rng::new(args.seed ^ 0x6d69_6478);
+    for i in 0..args.budget(8, 40) {
+        random_midx_scenario(&mut rep, &sc, &mut rng_m, i);
     }
     let (runs, min_ops, max_millis) = if args.thorough { (10 * args.scale, 30, 20_000) } else { (4 * args.scale, 18, 12_000) };
     let runs = if std::env::var_os("C12_NO_STRESS").is_some() { 0 } else { runs };
